@@ -3,11 +3,13 @@
    and the real CommandLineTestRunner on a probe registry.  The meaning of the vector is computed here by Meaning();
    for documented vectors every observation is bound (configuration, output kind, package, separate-process use,
    how often each probe test ran - the probe registry is whatever the `probe' line in force says: the 10-test registry, the
-   word registry, a seeded random one); for every vector the safety clause is checked: a rejected vector prints usage or
+   word registry, a seeded random one; what the runner applied to every output it created and to the registry: verbosity level,
+   colour, number of test runs, shuffle seed, crash / rethrow switches); the clock the parser reads is whatever the `clock' line
+   in force says (none: the real clock); for every vector the safety clause is checked: a rejected vector prints usage or
    help and runs nothing. *)
 EXTENDS CmdLine, Json, IOUtils
-VARIABLES l, probe, obs
-tvars == <<vars, l, probe, obs>>
+VARIABLES l, probe, obs, clock
+tvars == <<vars, l, probe, obs, clock>>
 Tr == ndJsonDeserialize(IOEnv.TRACE)
 E == Tr[l]
 Is(op) == l <= Len(Tr) /\ Tr[l].op = op /\ l' = l + 1
@@ -19,41 +21,59 @@ ConfigOK(c, e) ==
     /\ e.verbose = c.verbose /\ e.vv = c.vv /\ e.color = c.color /\ e.sep = c.sep /\ e.lg = c.lg /\ e.ln = c.ln /\ e.ll = c.ll
     /\ e.ri = c.ri /\ e.rev = c.rev /\ e.crash = c.crash /\ e.rethrow = c.rethrow /\ e.shuffle = c.shuffle
     \* seed and repeat count are logged exactly, as the decimal text of the configured size_t value
-    /\ (c.shuffle => IF c.seed = <<>> THEN Canon(e.seed) # <<>> ELSE e.seed = c.seed)          \* no seed given: from the clock, > 0
+    /\ (c.shuffle => IF c.seed = <<>> THEN ClockSeedOK(e.seed) ELSE e.seed = c.seed)           \* no seed given: from the clock, > 0 whatever it reads
     /\ e.repeat = c.repeat /\ e.out = c.out /\ e.pkg = c.pkg
     /\ FSet(e.gf) = GF(c) /\ FSet(e.nf) = NF(c)
     /\ ~e.help
 OutKind(c) == CASE c.out = "junit" -> (IF c.verbose \/ c.vv THEN "junit+console" ELSE "junit")
                 [] c.out = "teamcity" -> "teamcity" [] OTHER -> "console"
+\* What the run gets (e.outs: every output the runner created, in order, with the level / colour it holds - `same': also at the
+\* start of every test run -, and the test runs started on it; e.shuf: the shuffleTests calls on the registry).  The JUnit half
+\* of a composite writes files: verbosity and colour have no documented meaning there.  In the list modes no test runs: only
+\* "nothing is started, nothing is shuffled" is bound.  clk: the reading of the stubbed clock (<<>>: the real clock) - at the
+\* same reading the runner's parser and the parser observed through the getters configure the same seed.
+AppliedOK(c, e, clk) ==
+    LET a == Applied(c) IN
+    /\ \A k \in 1..Len(e.outs) : LET o == e.outs[k] IN
+         /\ o.starts = a.runs
+         /\ (a.runs > 0 /\ ~(o.k = "junit" /\ Len(e.outs) > 1)) => (o.level = a.level /\ o.color = a.color /\ o.same)
+    /\ a.runs > 0 => (e.arethrow = a.rethrow /\ e.acrash = a.crash)
+    /\ (e.shuf.n > 0) = (a.shuffle /\ a.runs > 0)
+    /\ (a.shuffle /\ a.runs > 0) => /\ e.shuf.same
+                                     /\ IF a.seed # <<>> THEN e.shuf.seed = a.seed
+                                        ELSE ClockSeedOK(e.shuf.seed) /\ (clk # <<>> => e.shuf.seed = e.seed)
 \* (the harness does not run the probe registry for repeat counts above 100: lvl2 false, nothing to compare)
-RunOK(c, e, p) ==
+RunOK(c, e, p, clk) ==
     IF ~IsSmallNumber(c.repeat) THEN ~e.lvl2 ELSE
     /\ e.lvl2 /\ e.printed = "none"
     /\ e.outkind = OutKind(c) /\ (c.out = "junit" => e.outpkg = c.pkg)
     /\ Len(e.ran) = Len(p)
     /\ \A k \in 1..Len(p) : SelectionKnown(p[k], c) => e.ran[k] = Runs(p[k], c)
     /\ e.seps = (IF c.sep THEN SumSeq(e.ran) ELSE 0)
+    /\ AppliedOK(c, e, clk)
 Silent(e) == \A k \in 1..Len(e.ran) : e.ran[k] = 0
 \* what the statement requires of every vector
 Safe(e) == /\ (~e.acc => (e.printed \in {"usage", "help"} /\ Silent(e) /\ e.seps = 0))
            /\ (e.acc /\ e.lvl2) => e.printed = "none"
-ObsOK(m, e, p) ==
+ObsOK(m, e, p, clk) ==
     /\ Safe(e)
-    /\ CASE m.k = "accept" -> e.acc /\ ConfigOK(m.cfg, e) /\ RunOK(m.cfg, e, p)
+    /\ CASE m.k = "accept" -> e.acc /\ ConfigOK(m.cfg, e) /\ RunOK(m.cfg, e, p, clk)
          [] m.k = "help" -> ~e.acc /\ e.help /\ e.printed = "help"
          [] m.k = "invalid" -> ~e.acc                                   \* a value the help text declares invalid: rejected (Safe: usage or help, nothing runs)
          [] OTHER -> TRUE
 
-TInit == Start(<<>>) /\ l = 1 /\ probe = <<>> /\ obs = [acc |-> TRUE, printed |-> "none", ran |-> <<>>]
+TInit == Start(<<>>) /\ l = 1 /\ probe = <<>> /\ obs = [acc |-> TRUE, printed |-> "none", ran |-> <<>>] /\ clock = <<>>
 TArgv == /\ Is("argv")
          /\ LET m == Meaning(E.tok) IN
-              /\ (ObsOK(m, E, probe)) = TRUE
+              /\ (ObsOK(m, E, probe, clock)) = TRUE
               /\ argv' = E.tok /\ cfg' = m.cfg /\ status' = m.k /\ i' = 1 /\ steps' = 0 /\ inv' = (m.k = "invalid")
          /\ obs' = [acc |-> E.acc, printed |-> E.printed, ran |-> E.ran]
-         /\ UNCHANGED probe
-TProbe == Is("probe") /\ probe' = E.tests /\ UNCHANGED <<vars, obs>>
-TReset == Is("reset") /\ probe' = <<>> /\ UNCHANGED <<vars, obs>>
-TSpec == TInit /\ [][TArgv \/ TProbe \/ TReset]_tvars
+         /\ UNCHANGED <<probe, clock>>
+TProbe == Is("probe") /\ probe' = E.tests /\ UNCHANGED <<vars, obs, clock>>
+\* the clock reads E.ms (decimal text; empty: the real clock) from here on
+TClock == Is("clock") /\ clock' = E.ms /\ UNCHANGED <<vars, obs, probe>>
+TReset == Is("reset") /\ probe' = <<>> /\ clock' = <<>> /\ UNCHANGED <<vars, obs>>
+TSpec == TInit /\ [][TArgv \/ TProbe \/ TClock \/ TReset]_tvars
 Accepted == TLCGet("stats").diameter - 1 = Len(Tr)
 \* the safety clause as an invariant over the observed outcome of the last vector
 RejectedRunsNothing == ~obs.acc => (obs.printed \in {"usage", "help"} /\ \A k \in 1..Len(obs.ran) : obs.ran[k] = 0)
@@ -64,9 +84,10 @@ TInv == RejectedRunsNothing /\ HelpMeansHelp /\ InvalidIsRejected
 \* diagnostics: the meaning of each vector, observations unbound
 PArgv == /\ Is("argv")
          /\ LET m == Meaning(E.tok) IN argv' = E.tok /\ cfg' = m.cfg /\ status' = m.k /\ i' = 1 /\ steps' = 0 /\ inv' = (m.k = "invalid")
-         /\ UNCHANGED <<probe, obs>>
-PSpec == TInit /\ [][PArgv \/ TProbe \/ TReset]_tvars
+         /\ UNCHANGED <<probe, obs, clock>>
+PSpec == TInit /\ [][PArgv \/ TProbe \/ TClock \/ TReset]_tvars
 Predict == (l > 1 /\ l - 1 >= atoi(IOEnv.FROM_LINE_N)) =>
-              PrintT(<<"BEH", ToJson([line |-> l - 1, meaning |-> status, cfg |-> cfg,
+              PrintT(<<"BEH", ToJson([line |-> l - 1, meaning |-> status, cfg |-> cfg, clock |-> clock,
+                                      applied |-> IF IsSmallNumber(cfg.repeat) THEN Applied(cfg) ELSE <<>>,
                                       runs |-> IF probe = <<>> \/ ~IsSmallNumber(cfg.repeat) THEN <<>> ELSE [k \in 1..Len(probe) |-> Runs(probe[k], cfg)]])>>)
 =============================================================================
